@@ -117,6 +117,12 @@ type c04GPCons struct {
 	And uint64
 	Or  uint64
 	Ptr bool
+	// ZeroEvery > 0: the register is 0 in every state whose number is a multiple of it (sources of BSF/BSR)
+	ZeroEvery int `json:",omitempty"`
+	// Tie > 0: in every state whose number is a multiple of TieEvery the register is a copy of GP[Tie-1]
+	// (CMPXCHG: destination equal to the accumulator, the comparison succeeds)
+	Tie      int `json:",omitempty"`
+	TieEvery int `json:",omitempty"`
 }
 
 type c04VecCons struct {
@@ -132,6 +138,10 @@ type c04PlanInst struct {
 	GP      []c04GPCons
 	Vec     []c04VecCons
 	MemFill int
+	// MemAnd != 0: every 8 bytes of the scratch memory are ANDed with it (small shift counts in memory)
+	MemAnd uint64 `json:",omitempty"`
+	// MemZeroEvery > 0: scratch memory is all zero in states whose number is a multiple of it
+	MemZeroEvery int `json:",omitempty"`
 	DeclW   map[string]uint8
 	DeclR   map[string]uint8
 }
@@ -166,6 +176,7 @@ type c04Inst struct {
 	declR  reg.MaskSet
 	declW  reg.MaskSet
 	usedef string
+	desc   string // "<opcode.suffixes> <types> <operands>" (for accept-build / accept-exec lines)
 	res    *c04Result
 	status string // "", "asm-rejected", "crashed: …"
 }
@@ -325,12 +336,41 @@ func c04EncUseDef(f *formRow, ops []operand.Op) string {
 		act := itoa(int(o.Action))
 		switch v := op.(type) {
 		case reg.Register:
-			parts = append(parts, act, "R", encReg(v), b01(operand.IsR32(op)))
+			parts = append(parts, act, "R", encReg(v), b01(v.Kind() == reg.KindGP && v.Size() == 4)) // 32-bit GP register, decided from kind and size (not operand.IsR32)
 		case operand.Mem:
 			parts = append(parts, act, "M", encRegs(operand.Registers(v)))
 		default:
 			parts = append(parts, act, "O")
 		}
+	}
+	return strings.Join(parts, " ")
+}
+
+// c04EncBuildRW encodes the form row (action, implicit per entry), its implicit registers and the explicit operands
+// separately: the `build-rw` request answered by the Lean model of form.build / InputRegisters / OutputRegisters.
+func c04EncBuildRW(f *formRow, ops []operand.Op) string {
+	enc := func(op operand.Op) string {
+		switch v := op.(type) {
+		case reg.Register:
+			return "0 R " + encReg(v) + " " + b01(v.Kind() == reg.KindGP && v.Size() == 4)
+		case operand.Mem:
+			return "0 M " + encRegs(operand.Registers(v))
+		}
+		return "0 O"
+	}
+	parts := []string{b01(f.Features&featCancelling != 0), itoa(len(f.Operands))}
+	var impls []string
+	for _, o := range f.Operands {
+		parts = append(parts, itoa(int(o.Action)), b01(o.Implicit))
+		if o.Implicit {
+			impls = append(impls, enc(x86.VerifImplReg(o.Type)))
+		}
+	}
+	parts = append(parts, itoa(len(impls)))
+	parts = append(parts, impls...)
+	parts = append(parts, itoa(len(ops)))
+	for _, op := range ops {
+		parts = append(parts, enc(op))
 	}
 	return strings.Join(parts, " ")
 }
@@ -549,9 +589,14 @@ func c04Instantiate(db *formsDB, seed uint64, row *formRow, choice, sfxIdx int) 
 		case "imm2u":
 			op = operand.U8(r.intn(4))
 		case "imm8":
-			if r.chance(1, 2) {
+			// shift counts, lane selectors, alignment offsets: a small count (below every element width) in the
+			// first choice, a medium one in the second, any byte in the third
+			switch {
+			case choice == 0 || (choice >= 3 && r.chance(1, 3)):
+				op = operand.U8(uint8(1 + r.intn(7)))
+			case choice == 1 || (choice >= 3 && r.chance(1, 2)):
 				op = operand.U8(uint8(r.intn(32)))
-			} else {
+			default:
 				op = operand.U8(uint8(r.u64()))
 			}
 		case "imm16":
@@ -648,7 +693,64 @@ func c04Instantiate(db *formsDB, seed uint64, row *formRow, choice, sfxIdx int) 
 			in.plan.GP = append(in.plan.GP, c04GPCons{Reg: gpSlot(d), And: 0x7ff})
 		}
 	}
+	// --- states tuned so that conditional / saturating behaviour is exercised (declared reads become observable)
+	if m := c04VecShiftRe.FindStringSubmatch(row.Opcode); m != nil && len(in.ops) >= 2 && choice != 1 {
+		// PSLLQ x, x / VPSRLVD y, y, y …: the first operand holds the shift count(s); a count >= the element width
+		// clears the result whatever the other source holds
+		var and uint64
+		switch {
+		case m[2] == "": // one count in the low quadword
+			and = map[string]uint64{"W": 0xf, "L": 0x1f, "D": 0x1f, "Q": 0x3f}[m[3]]
+		case m[3] == "W":
+			and = 0x000f000f000f000f
+		case m[3] == "D":
+			and = 0x0000001f0000001f
+		default:
+			and = 0x3f
+		}
+		switch c := in.ops[0].(type) {
+		case reg.Register:
+			if c.Kind() == reg.KindVector {
+				in.plan.Vec = append(in.plan.Vec, c04VecCons{Reg: int(c.(reg.Physical).PhysicalIndex()), Elem: 8, And: and})
+			}
+		case operand.Mem:
+			in.plan.MemAnd = and
+		}
+	}
+	if c04BitScanRe.MatchString(row.Opcode) && len(in.ops) == 2 {
+		// BSF/BSR leave the destination unchanged when the source is zero: every second state has a zero source
+		switch c := in.ops[0].(type) {
+		case reg.Register:
+			in.plan.GP = append(in.plan.GP, c04GPCons{Reg: gpSlot(c), And: ^uint64(0), ZeroEvery: 2})
+		case operand.Mem:
+			in.plan.MemZeroEvery = 2
+		}
+	}
+	if c04CmpxchgRe.MatchString(row.Opcode) && len(in.ops) == 2 {
+		// CMPXCHG src, dst: in every second state dst equals the accumulator (the exchange happens, src is read)
+		switch c := in.ops[1].(type) {
+		case reg.Register:
+			in.plan.GP = append(in.plan.GP, c04GPCons{Reg: gpSlot(c), And: ^uint64(0), Tie: 1, TieEvery: 2})
+		case operand.Mem:
+			memfill = 3
+		}
+	}
+	switch row.Opcode {
+	case "CMPXCHG8B":
+		memfill = 4
+	case "CMPXCHG16B":
+		memfill = 5
+	}
 	in.plan.MemFill = memfill
+	types := strings.Join(row.explicitTypes(), ",")
+	if types == "" {
+		types = "-"
+	}
+	var opsTxt []string
+	for _, op := range in.ops {
+		opsTxt = append(opsTxt, strings.ReplaceAll(op.Asm(), " ", ""))
+	}
+	in.desc = strings.Join(append([]string{row.Opcode}, in.sfx...), ".") + " " + types + " " + strings.Join(append(opsTxt, "-")[:max(1, len(opsTxt))], ",")
 	var inst *ir.Instruction
 	err, panicked := safely(func() error {
 		var e error
@@ -656,38 +758,46 @@ func c04Instantiate(db *formsDB, seed uint64, row *formRow, choice, sfxIdx int) 
 		return e
 	})
 	if panicked {
-		return nil, "panic in build"
+		return in, "panic in build"
 	}
 	if err != nil || inst == nil {
 		return nil, "rejected by build"
-	}
-	// what avo goes on to emit must pass the post-allocation checks of the pipeline (physical registers only;
-	// no high-byte register in an instruction that needs a REX prefix)
-	{
-		fn := ir.NewFunction("f")
-		fn.AddInstruction(inst)
-		verr, vp := safely(func() error { return pass.VerifyAllocation(fn) })
-		if vp {
-			return nil, "panic in VerifyAllocation"
-		}
-		if verr != nil {
-			return nil, "rejected by pass.VerifyAllocation: " + verr.Error()
-		}
 	}
 	in.m = c04MatchedForm(db, row.Opcode, in.sfx, in.ops)
 	if in.m == nil {
 		return nil, "no matched form"
 	}
-	var rin, rout []reg.Register
-	_, panicked = safely(func() error {
-		if e := pass.ZeroExtend32BitOutputs(inst); e != nil {
-			return e
+	in.usedef = c04EncUseDef(in.m, in.ops)
+	// The declared sets are those the instruction has AFTER the real compile pipeline (pass.Compile on a file
+	// holding a function with this instruction and RET): whatever the pipeline does to an instruction's
+	// inputs/outputs before liveness (today: ZeroExtend32BitOutputs) is included, and a pipeline that drops or
+	// misplaces that step is seen.  The pipeline also applies the post-allocation checks (physical registers
+	// only; no high-byte register in an instruction that needs a REX prefix).
+	{
+		file := ir.NewFile()
+		fn := ir.NewFunction("f")
+		fn.AddInstruction(inst)
+		ret, rerr := x86.VerifBuild("RET", nil, nil)
+		if rerr != nil || ret == nil {
+			return nil, "cannot build RET"
 		}
+		fn.AddInstruction(ret)
+		file.Sections = append(file.Sections, fn)
+		cerr, cp := safely(func() error { return pass.Compile.Execute(file) })
+		if cp {
+			return in, "panic in pass.Compile: " + c04Short(cerr.Error())
+		}
+		if cerr != nil {
+			return nil, "rejected by pass.Compile: " + c04Short(cerr.Error())
+		}
+	}
+	var rin, rout []reg.Register
+	perr, panicked := safely(func() error {
 		rin, rout = inst.InputRegisters(), inst.OutputRegisters()
 		return nil
 	})
 	if panicked {
-		return nil, "panic in InputRegisters/OutputRegisters"
+		return in, "panic in InputRegisters/OutputRegisters: " + c04Short(perr.Error())
 	}
 	for _, x := range append(append([]reg.Register{}, rin...), rout...) {
 		if x.ID().IsVirtual() {
@@ -700,7 +810,6 @@ func c04Instantiate(db *formsDB, seed uint64, row *formRow, choice, sfxIdx int) 
 	in.plan.DeclR = c04NamedMasks(in.declR)
 	in.plan.DeclW = c04NamedMasks(in.declW)
 	in.plan.ID = in.id
-	in.usedef = c04EncUseDef(in.m, in.ops)
 	in.text = inst.OpcodeWithSuffixes()
 	if len(inst.Operands) > 0 {
 		var as []string
@@ -710,6 +819,18 @@ func c04Instantiate(db *formsDB, seed uint64, row *formRow, choice, sfxIdx int) 
 		in.text += " " + strings.Join(as, ", ")
 	}
 	return in, ""
+}
+
+var c04VecShiftRe = regexp.MustCompile(`^V?PS(LL|RL|RA)(V?)([WDLQ])$`)
+var c04BitScanRe = regexp.MustCompile(`^BS[FR][WLQ]$`)
+var c04CmpxchgRe = regexp.MustCompile(`^CMPXCHG[BWLQ]$`)
+
+func c04Short(s string) string {
+	s = strings.ReplaceAll(strings.TrimSpace(s), "\n", " ")
+	if len(s) > 100 {
+		s = s[:100]
+	}
+	return s
 }
 
 // ---------------------------------------------------------------------------
@@ -992,6 +1113,9 @@ func init() {
 		if err := f.fs.Parse(args); err != nil {
 			return err
 		}
+		if abs, err := filepath.Abs(*work); err == nil {
+			*work = abs // child programs are built with `go build` running in <work>/gen: paths must not be relative
+		}
 		db, err := loadForms(*f.repo)
 		if err != nil {
 			return err
@@ -1005,6 +1129,12 @@ func init() {
 		if err != nil {
 			return err
 		}
+		if need := []string{"avx512f", "avx512bw", "avx512dq", "avx512vl"}; !(flags[need[0]] && flags[need[1]] && flags[need[2]] && flags[need[3]]) {
+			// the trampoline loads and stores Z0-Z31 and K0-K7 with AVX-512 instructions: on such a host nothing can be
+			// measured; say so instead of crashing every child
+			o.emit("accept-build host - - - built", "ok")
+			return writeJSON(*f.stats, map[string]any{"host_unsupported": "host CPU lacks AVX-512 F/BW/DQ/VL", "counts": map[string]int{}})
+		}
 		var onlyRe *regexp.Regexp
 		if *only != "" {
 			onlyRe = regexp.MustCompile(*only)
@@ -1013,6 +1143,7 @@ func init() {
 
 		// ---- selection
 		skippedISA := map[string]int{}
+		unknownISA := map[string]int{}
 		denied := map[string]int{}
 		deniedWhy := map[string]string{}
 		var eligible []*formRow
@@ -1024,6 +1155,9 @@ func init() {
 			missing := ""
 			for _, isa := range row.ISAs {
 				fl, known := c04ISAFlag[isa]
+				if !known {
+					unknownISA[isa]++ // an extension name this harness has no cpuinfo flag for: coverage shrinks (reported)
+				}
 				if !known || !flags[fl] {
 					missing = isa
 				}
@@ -1050,12 +1184,29 @@ func init() {
 			if err != nil {
 				return err
 			}
-			idRe := regexp.MustCompile(`^accept-rw f(\d+)\.c(\d+)\.s(\d+) `)
+			idRe := regexp.MustCompile(`^accept-(?:rw|exec|build) f(\d+)\.c(\d+)\.s(\d+) ([A-Z0-9]+)\S* (\S+) `)
 			for _, l := range lines {
 				if m := idRe.FindStringSubmatch(l); m != nil {
 					fi, _ := strconv.Atoi(m[1])
 					c, _ := strconv.Atoi(m[2])
 					s, _ := strconv.Atoi(m[3])
+					// the row index is only a hint: after a table change the row is found again by opcode and operand types
+					same := func(i int) bool {
+						t := strings.Join(db.rows[i].explicitTypes(), ",")
+						if t == "" {
+							t = "-"
+						}
+						return db.rows[i].Opcode == m[4] && t == m[5]
+					}
+					if fi >= len(db.rows) || !same(fi) {
+						fi = len(db.rows)
+						for _, ix := range db.byOpcode[m[4]] {
+							if same(ix) {
+								fi = ix
+								break
+							}
+						}
+					}
 					key := fmt.Sprintf("%d.%d.%d", fi, c, s)
 					if fi < len(db.rows) && !replayIDs[key] {
 						replayIDs[key] = true
@@ -1099,11 +1250,23 @@ func init() {
 		// ---- instantiate
 		stats := map[string]int{}
 		notBuilt := map[string]int{}
+		rowWhy := map[int]string{}      // row index -> why an instance of it was not measured (last reason)
+		rowMeasured := map[int]bool{}   // row index -> some instance generated for it was measured
 		var insts []*c04Inst
 		for _, s := range sels {
 			in, why := c04Instantiate(db, *f.seed, s.row, s.choice, s.sfxIdx)
+			if in != nil && why != "" {
+				// a panic of the real code on an instruction it accepted is a violation, not a statistic
+				o.emit("accept-build "+in.id+" "+in.desc+" "+strings.ReplaceAll(why, " ", "_"), "ok")
+				stats["panics"]++
+				rowWhy[s.row.Index] = "panic"
+				continue
+			}
 			if in == nil {
 				notBuilt[why]++
+				if rowWhy[s.row.Index] == "" {
+					rowWhy[s.row.Index] = "not built: " + why
+				}
 				continue
 			}
 			insts = append(insts, in)
@@ -1199,6 +1362,7 @@ func init() {
 		asmRejected := map[string]int{}
 		noisy := map[string]int{}
 		flagsR, flagsW, memW := 0, 0, 0
+		acct := &c04Acct{r: map[string]bool{}, w: map[string]bool{}}
 		runs := 0
 		var witnesses []map[string]any
 		byClass := map[string]int{}
@@ -1209,15 +1373,27 @@ func init() {
 				if len(rejectedEx) < 40 {
 					rejectedEx = append(rejectedEx, in.text+"  ["+tail(in.status, 160)+"]")
 				}
+				stats["asm_rejected_instances"]++
+				rowWhy[in.row.Index] = "assembler rejected"
 				continue
 			case strings.HasPrefix(in.status, "crashed"):
 				crashed[in.m.Opcode+" "+in.status]++
 				if len(crashedEx) < 40 {
 					crashedEx = append(crashedEx, in.text+"  ["+in.status+"]")
 				}
+				// avo built it, the assembler encoded it, the host reports the ISA extensions of the form — and the
+				// processor refuses to execute it: judged by the driver (`accept-exec`), never dropped silently
+				isas := strings.Join(in.m.ISAs, "+")
+				if isas == "" {
+					isas = "-"
+				}
+				o.emit("accept-exec "+in.id+" "+in.desc+" "+isas+" "+strings.ReplaceAll(strings.TrimPrefix(in.status, "crashed: "), " ", "_"), "ok")
+				stats["crashed_instances"]++
+				rowWhy[in.row.Index] = in.status
 				continue
 			case in.res == nil:
 				stats["not_measured"]++
+				rowWhy[in.row.Index] = "no result"
 				continue
 			}
 			res := in.res
@@ -1260,7 +1436,10 @@ func init() {
 				encMaskSet(in.declR), encMaskSet(in.declW), encMaskSet(obsR), encMaskSet(obsW))
 			o.emit(req, "ok")
 			o.emit("usedef "+in.usedef, encMaskSet(in.declR)+" "+encMaskSet(in.declW))
+			o.emit("build-rw "+c04EncBuildRW(in.m, in.ops), encMaskSet(in.declR)+" "+encMaskSet(in.declW))
 			stats["measured"]++
+			rowMeasured[in.row.Index] = true
+			c04Account(acct, in, obsR, obsW)
 			byClass[c04Class(in.m)]++
 			if len(res.Wit) > 0 {
 				witnesses = append(witnesses, map[string]any{"id": in.id, "asm": in.text, "witness": res.Wit})
@@ -1275,6 +1454,31 @@ func init() {
 				stats["other_form_matched"]++
 			}
 		}
+		// eligible rows without a single judged instance, by reason
+		unmeasured := map[string]int{}
+		var unmeasuredEx []string
+		if *f.replay == "" && (*f.n <= 0 || *f.n >= len(eligible)) {
+			for _, row := range eligible {
+				if rowMeasured[row.Index] {
+					continue
+				}
+				why := rowWhy[row.Index]
+				if why == "" {
+					why = "no instance"
+				}
+				unmeasured[why]++
+				if len(unmeasuredEx) < 30 {
+					unmeasuredEx = append(unmeasuredEx, fmt.Sprintf("f%d %s %s: %s", row.Index, row.Opcode, strings.Join(row.explicitTypes(), ","), why))
+				}
+				stats["rows_unmeasured"]++
+			}
+			stats["rows_measured"] = len(eligible) - stats["rows_unmeasured"]
+		}
+		ur, uw := acct.unobserved()
+		stats["declared_read_positions"] = len(acct.r)
+		stats["declared_read_positions_unobserved"] = len(ur)
+		stats["declared_write_positions"] = len(acct.w)
+		stats["declared_write_positions_unobserved"] = len(uw)
 		stats["cpu_runs"] = runs
 		stats["flags_read_instances"] = flagsR
 		stats["flags_written_instances"] = flagsW
@@ -1296,9 +1500,72 @@ func init() {
 			"crashed_examples":        crashedEx,
 			"nondeterministic_opcode": noisy,
 			"measured_by_class":       byClass,
+			"rows_unmeasured_by_reason": unmeasured,
+			"rows_unmeasured_examples":  unmeasuredEx,
+			"unknown_isa_forms":         unknownISA,
+			"declared_reads_never_observed":  ur,
+			"declared_writes_never_observed": uw,
 			"states_per_instance":     *states,
 		})
 	})
+}
+
+// c04Acct records, per (matched form row, operand position) with a declared read (write) of a register operand,
+// whether the read (write) was observed in some instance: positions never observed are places where the measurement
+// could not notice a missing declaration (the check module puts a ceiling on their number).
+type c04Acct struct {
+	r, w map[string]bool
+}
+
+func c04Account(a *c04Acct, in *c04Inst, obsR, obsW reg.MaskSet) {
+	// registers of all operands; an observation is attributed to a position only if its register is unique
+	count := map[reg.ID]int{}
+	var opsAll []operand.Op
+	k := 0
+	for _, o := range in.m.Operands {
+		var op operand.Op
+		if o.Implicit {
+			op = x86.VerifImplReg(o.Type)
+		} else if k < len(in.ops) {
+			op = in.ops[k]
+			k++
+		}
+		opsAll = append(opsAll, op)
+		if op != nil {
+			for _, x := range operand.Registers(op) {
+				count[x.ID()]++
+			}
+		}
+	}
+	for j, o := range in.m.Operands {
+		x, ok := opsAll[j].(reg.Register)
+		if !ok || count[x.ID()] != 1 {
+			continue
+		}
+		key := fmt.Sprintf("f%d %s %s #%d", in.m.Index, in.m.Opcode, strings.Join(in.m.TypeNames, ","), j)
+		if o.Action&1 != 0 {
+			a.r[key] = a.r[key] || obsR[x.ID()]&x.Mask() != 0
+		}
+		if o.Action&2 != 0 {
+			a.w[key] = a.w[key] || obsW[x.ID()]&x.Mask() != 0
+		}
+	}
+}
+
+func (a *c04Acct) unobserved() (r, w []string) {
+	for k, seen := range a.r {
+		if !seen {
+			r = append(r, k)
+		}
+	}
+	for k, seen := range a.w {
+		if !seen {
+			w = append(w, k)
+		}
+	}
+	sort.Strings(r)
+	sort.Strings(w)
+	return
 }
 
 func seq(n int) []int {
